@@ -20,6 +20,7 @@ func (h *Hist) genConfigs() {
 		ng = r.pickI(2, 2, 3)
 	}
 	h.globalDry = r.chance(4)
+	h.big = r.chance(3) && focus != "fleet" && focus != "rotate" && focus != "restore" && !slowOK
 	if focus == "dry" {
 		h.globalDry = r.chance(25)
 	}
@@ -56,6 +57,13 @@ func (h *Hist) genConfigs() {
 			minN = r.rng(2, 5)
 		}
 		maxN = minN + r.rng(1, 9)
+		if h.big && i == 0 {
+			// a large group: hundreds of nodes, removal rates to match
+			minN = r.pickI(0, 3, 20, 60)
+			maxN = minN + r.rng(40, 260)
+			fast = r.pickI(5, 25, 60, 120)
+			slow = r.rng(0, fast)
+		}
 		if r.chance(25) || focus == "autodisc" {
 			minN, maxN = 0, 0 // auto-discover
 		}
@@ -105,6 +113,9 @@ func (h *Hist) genConfigs() {
 		if minN == 0 && maxN == 0 {
 			asgMin, asgMax = int64(r.rng(0, 3)), 0
 			asgMax = asgMin + int64(r.rng(1, 9))
+			if h.big && i == 0 {
+				asgMax = asgMin + int64(r.rng(40, 260))
+			}
 		} else {
 			switch r.intn(4) {
 			case 0:
@@ -253,6 +264,9 @@ func (h *Hist) setLoad(gi int, pct int, jitter int) {
 		wantMem = 0
 	}
 	npods := h.r.rng(1, 6)
+	if h.big && h.r.chance(30) {
+		npods = h.r.rng(60, 400)
+	}
 	if wantCPU == 0 && wantMem == 0 && h.r.chance(50) {
 		npods = 0
 	}
